@@ -832,3 +832,104 @@ Example converge_live_nonvacuous :
   aliveb s0 = true /\ no_stallb s0 = true /\ liveb s0 0 = true /\ liveb s0 1 = true /\
   last_recv (drain (drain_bound s0) (step s0 ETick)) 1 = Some [1;2].
 Proof. vm_compute. auto. Qed.
+
+(* ---- everybody leaves ---- *)
+
+Definition bye (i : nat) : list event := [ECancel i; EUnsubscribe i].
+Definition cancel_all (n : nat) : list event := flat_map bye (seq 0 n).
+
+Definition cancelled_at (s : st) (i : nat) : Prop :=
+  exists c, nth_error (clients s) i = Some c /\ ccancel c = true.
+
+Lemma bye_step : forall s i, i < length (clients s) ->
+  let s' := run s (bye i) in
+  length (clients s') = length (clients s) /\ subs s' = subs s /\ src s' = src s /\ loop s' = loop s /\
+  cancelled_at s' i /\ In i (unsubq s') /\
+  (forall j, cancelled_at s j -> cancelled_at s' j) /\
+  (forall j, In j (unsubq s) -> In j (unsubq s')).
+Proof.
+  intros s i L. unfold cancelled_at, run, bye. cbn [fold_left step]. unf.
+  rewrite upd_length.
+  assert (Lb : (i <? length (clients s)) = true) by (apply Nat.ltb_lt; exact L). rewrite Lb.
+  unf. rewrite upd_length. repeat split; auto.
+  - destruct (nth_error (clients s) i) as [c|] eqn:N; [|apply nth_error_None in N; lia].
+    exists (c_cancel c). split; [rewrite nth_error_upd_same, N; reflexivity|reflexivity].
+  - apply in_or_app. right. left. reflexivity.
+  - intros j [c [N C]]. destruct (Nat.eq_dec i j) as [E|E].
+    + subst. exists (c_cancel c). split; [rewrite nth_error_upd_same, N; reflexivity|reflexivity].
+    + exists c. split; [rewrite nth_error_upd_other by exact E; exact N|exact C].
+  - intros j H. apply in_or_app. left. exact H.
+Qed.
+
+Lemma byes_run : forall l s, (forall i, In i l -> i < length (clients s)) ->
+  let s' := run s (flat_map bye l) in
+  length (clients s') = length (clients s) /\ subs s' = subs s /\ src s' = src s /\ loop s' = loop s /\
+  (forall i, In i l -> cancelled_at s' i /\ In i (unsubq s')) /\
+  (forall j, cancelled_at s j -> cancelled_at s' j) /\
+  (forall j, In j (unsubq s) -> In j (unsubq s')).
+Proof.
+  induction l as [|i t IH]; intros s H.
+  - simpl. repeat split; auto; try (intros ? []); try contradiction.
+  - cbn [flat_map]. rewrite run_app.
+    destruct (bye_step s i (H i (or_introl eq_refl))) as [A [B [C [D [E [F [G K]]]]]]].
+    set (sa := run s (bye i)) in *.
+    destruct (IH sa) as [A' [B' [C' [D' [E' [G' K']]]]]].
+    { intros j Hj. rewrite A. apply H. right. exact Hj. }
+    repeat split; try congruence.
+    + destruct H0 as [H0|H0]; [subst; apply G'; exact E|apply E'; exact H0].
+    + destruct H0 as [H0|H0]; [subst; apply K'; exact F|apply E'; exact H0].
+    + intros j Hj. apply G'. apply G. exact Hj.
+    + intros j Hj. apply K'. apply K. exact Hj.
+Qed.
+
+Lemma sys_step_clients_len : forall s e, sys_event e -> length (clients (step s e)) = length (clients s).
+Proof.
+  intros s e H. break_step s e; try (destruct H; fail); simpl; rewrite ?upd_length; reflexivity.
+Qed.
+Lemma sys_run_clients_len : forall ks s, Forall sys_event ks -> length (clients (run s ks)) = length (clients s).
+Proof.
+  induction ks as [|e t IH]; intros s F; simpl; [reflexivity|]. inversion F; subst.
+  rewrite (IH _ H2). apply sys_step_clients_len. exact H1.
+Qed.
+
+(* C27_unsub for everybody: when every subscriber's context is cancelled and
+   Unsubscribe is called for it (what calcium.WatchServiceStatus does when the
+   client goes away), then -- stalled readers or not -- every call returns, the
+   map is empty and every channel is closed. *)
+Theorem unsub_all : forall evs,
+  let s0 := run init evs in
+  aliveb s0 = true ->
+  let s := run s0 (cancel_all (length (clients s0))) in
+  let s1 := drain (drain_bound s) s in
+  quiescentb s1 = true /\ subs s1 = [] /\ unsubq s1 = [] /\
+  (forall i c, nth_error (clients s1) i = Some c -> cclosed c = true).
+Proof.
+  intros evs s0 A s s1.
+  assert (W0 : wf s0) by (apply wf_run; exact wf_init).
+  destruct (byes_run (seq 0 (length (clients s0))) s0) as [L [Sb [Sr [Lp [All _]]]]].
+  { intros i Hi. apply in_seq in Hi. lia. }
+  fold (cancel_all (length (clients s0))) in *. fold s in L, Sb, Sr, Lp, All.
+  assert (W : wf s) by (apply wf_run; exact W0).
+  assert (Al : aliveb s = true) by (unfold aliveb in *; rewrite Sr, Lp; exact A).
+  assert (Ns : no_stallb s = true).
+  { apply no_stall_spec. intros i Hi. pose proof (wf_lt s W i Hi) as Li. rewrite L in Li.
+    destruct (All i) as [[c [N C]] _]; [apply in_seq; lia|].
+    unfold stalledb. rewrite N, C. simpl. apply andb_false_r. }
+  assert (G : good s) by (split; [exact W|split; assumption]).
+  assert (Q : quiescentb s1 = true) by (apply drain_quiescent; [exact G|apply mu_bound; exact W]).
+  destruct (drain_is_sys_run (drain_bound s) s) as [ks [F E]]. fold s1 in E.
+  assert (W1 : wf s1) by (rewrite E; apply wf_run; exact W).
+  pose proof (quiescentb_spec s1 Q) as [_ [_ [Uq _]]].
+  assert (Out : forall i, i < length (clients s) -> ~ In i (subs s1)).
+  { intros i Li. assert (K : ret_or_queued s1 i).
+    { rewrite E. apply roq_run. left. apply All. apply in_seq. lia. }
+    destruct K as [K|K]; [rewrite Uq in K; destruct K|]. apply (wf_ret s1 W1 i K). }
+  assert (Lc : length (clients s1) = length (clients s)) by (rewrite E; apply sys_run_clients_len; exact F).
+  assert (Len : forall i, In i (subs s1) -> i < length (clients s)).
+  { intros i Hi. rewrite <- Lc. apply (wf_lt s1 W1). exact Hi. }
+  split; [exact Q|]. split; [|split; [exact Uq|]].
+  - destruct (subs s1) as [|i r] eqn:Sb1; [reflexivity|]. exfalso.
+    apply (Out i); [apply Len; left; reflexivity|left; reflexivity].
+  - intros i c N. apply (wf_closed s1 W1 i c N). apply Out.
+    rewrite <- Lc. apply nth_error_Some. congruence.
+Qed.
